@@ -6,9 +6,15 @@ from ..settings import Sign
 
 class ExportConfigFortran(ExportConfig):
 
+    def _parse_strlen(self, param, value):
+        # length of the longest element literal
+        if isinstance(value,(np.ndarray,tuple,list)):
+            return max(self._parse_strlen(param, v) for v in value)
+        return len(self._parse_scalar(param, value))
+
     def _parse_dtype(self, param, value):
         if isinstance(param, StringType):
-            dtype = f"character(len={len(value):d})"
+            dtype = f"character(len={self._parse_strlen(param, param.value):d})"
         elif isinstance(param, BooleanType):
             dtype = "logical"
         elif isinstance(param, IntegerType):
@@ -61,6 +67,9 @@ class ExportConfigFortran(ExportConfig):
             name = self._rename(name)
             value, shape = self._parse_value(param, param.value)
             dtype = self._parse_dtype(param, value)
+            if shape is not None and isinstance(param, StringType):
+                # elements of different length need an array constructor with an explicit type
+                value = f"{dtype} :: {value}"
             if shape is None:
                 lines.append(f"  {dtype}, parameter :: {name} = {value};")
             else:
